@@ -41,6 +41,10 @@ fn table_from_pairs(
     root.items.reserve(v.len());
 
     for (path, (key, value)) in v {
+        // Dotted keys nest tables as well: count them, together with the nesting of the
+        // value they lead to, towards the recursion limit.
+        #[cfg(not(feature = "unbounded"))]
+        RecursionCheck::check_depth(path.len() + 1 + value.as_value().map_or(0, value_depth))?;
         let table = descend_path(&mut root, &path)?;
 
         // "Likewise, using dotted keys to redefine tables already defined in [table] form is not allowed"
@@ -65,6 +69,21 @@ fn table_from_pairs(
         }
     }
     Ok(root)
+}
+
+#[cfg(not(feature = "unbounded"))]
+fn value_depth(value: &Value) -> usize {
+    match value {
+        Value::Array(array) => 1 + array.iter().map(value_depth).max().unwrap_or(0),
+        Value::InlineTable(table) => {
+            1 + table
+                .iter()
+                .map(|(_, value)| value_depth(value))
+                .max()
+                .unwrap_or(0)
+        }
+        _ => 0,
+    }
 }
 
 fn descend_path<'a>(
